@@ -6,7 +6,7 @@ use crate::internal::messages::common::TaskFailInfo;
 use crate::internal::messages::worker::{
     NewWorkerMsg, TaskIdsMsg, TaskRunningMsg, TaskUpdates, ToWorkerMessage, WorkerTaskUpdate,
 };
-use crate::internal::scheduler::SchedulerState;
+use crate::internal::scheduler::{SchedulerState, TaskQueues};
 use crate::internal::server::comm::Comm;
 use crate::internal::server::core::{Core, CoreSplitMut};
 use crate::internal::server::task::ComputeTasksBuilder;
@@ -327,13 +327,7 @@ fn task_running(
             // By removing redirections first, we unassign the task so we can later assign it back
             // In theory, we could optimize this special case by doing nothing, but it should be quite rare
             // So I prefer to keep the code simple.
-            try_remove_redirection(
-                worker_map,
-                scheduler_state,
-                request_map,
-                task_id,
-                task.resource_rq_id,
-            );
+            try_remove_redirection(worker_map, scheduler_state, request_map, task_queues, task);
             let rqv = request_map.get(task.resource_rq_id);
             worker_map
                 .get_worker_mut(worker_id)
@@ -557,13 +551,7 @@ fn task_finished(
             }
             TaskRuntimeState::Retracting { worker_id: w_id } => {
                 assert_eq!(*w_id, worker_id);
-                try_remove_redirection(
-                    worker_map,
-                    scheduler_state,
-                    request_map,
-                    task_id,
-                    task.resource_rq_id,
-                );
+                try_remove_redirection(worker_map, scheduler_state, request_map, task_queues, task);
             }
             TaskRuntimeState::Prefilled { .. }
             | TaskRuntimeState::Waiting { .. }
@@ -600,17 +588,25 @@ fn task_finished(
     true
 }
 
+/// Called when a retracting task leaves the `Retracting` state for another reason than the
+/// retract response (it started, finished, failed or was cancelled in the meantime).
+/// Either the scheduler has already reserved a new target worker for it (redirect), or the task
+/// is still offered in the ready queue; both have to be undone.
 fn try_remove_redirection(
     worker_map: &mut WorkerMap,
     scheduler_state: &mut SchedulerState,
     request_map: &ResourceRqMap,
-    task_id: TaskId,
-    resource_rq_id: ResourceRqId,
+    task_queues: &mut TaskQueues,
+    task: &Task,
 ) {
-    if let Some((worker_id, rv_id)) = scheduler_state.redirects.remove(&task_id) {
+    if let Some((worker_id, rv_id)) = scheduler_state.redirects.remove(&task.id) {
         let worker = worker_map.get_worker_mut(worker_id);
-        let rq = request_map.get(resource_rq_id).get(rv_id);
-        worker.remove_sn_task(task_id, rq);
+        let rq = request_map.get(task.resource_rq_id).get(rv_id);
+        worker.remove_sn_task(task.id, rq);
+    } else {
+        task_queues
+            .get_mut(task.resource_rq_id)
+            .remove(task.id, task.priority());
     }
 }
 
@@ -668,8 +664,8 @@ fn task_failed(
                                 worker_map,
                                 scheduler_state,
                                 request_map,
-                                task_id,
-                                task.resource_rq_id,
+                                task_queues,
+                                task,
                             );
                         }
                         _ => {}
@@ -764,8 +760,8 @@ pub(crate) fn on_cancel_tasks(core: &mut Core, comm: &mut impl Comm, task_ids: &
                         worker_map,
                         scheduler_state,
                         request_map,
-                        task_id,
-                        task.resource_rq_id,
+                        task_queues,
+                        task,
                     );
                     running_ids.entry(worker_id).or_default().push(task_id);
                     comm.ask_for_scheduling();
